@@ -45,10 +45,14 @@ type ocCase struct {
 	// of the target session (flush | drain | srv.flush | srv.drain) while the sends are going on: Send(bye), then
 	// Close(false). "" = the close is called after the sends, from outside any listener
 	CloseIn string
+	// CloseHeld: graceful close: the closing goroutine is held inside Close, after it has found packets in the write
+	// buffer, while another goroutine (the transport's writer finishing the batch before, or the next poll) hands
+	// those packets over; then it goes on
+	CloseHeld bool
 }
 
 func (c ocCase) String() string {
-	return fmt.Sprintf("{%+v close=%s target=%d midUpgrade=%v finishUpgrade=%v closeIn=%q}", c.Sess, c.Close, c.Target, c.MidUpgrade, c.FinishUpgrade, c.CloseIn)
+	return fmt.Sprintf("{%+v close=%s target=%d midUpgrade=%v finishUpgrade=%v closeIn=%q closeHeld=%v}", c.Sess, c.Close, c.Target, c.MidUpgrade, c.FinishUpgrade, c.CloseIn, c.CloseHeld)
 }
 
 func genC12(rt *rapid.T, gates bool, known bool, col *Collector) ocCase {
@@ -90,6 +94,7 @@ func genC12(rt *rapid.T, gates bool, known bool, col *Collector) ocCase {
 	c.FinishUpgrade = c.MidUpgrade && c.Close == "close" && rapid.Bool().Draw(rt, "finishUpgrade")
 	if c.Close == "close" {
 		c.CloseIn = rapid.SampledFrom([]string{"", "", "", "flush", "drain", "srv.flush", "srv.drain"}).Draw(rt, "closeIn")
+		c.CloseHeld = gates && c.CloseIn == "" && rapid.IntRange(0, 2).Draw(rt, "closeHeld") == 0
 	}
 	return c
 }
@@ -167,7 +172,7 @@ func runC12(c ocCase) (fail string, stats map[string]bool) {
 	defer w.Teardown()
 	var g *Gates
 	for _, sp := range c.Sess {
-		if sp.GateSend {
+		if sp.GateSend || c.CloseHeld {
 			g = InstallGates(nil)
 			defer g.Uninstall()
 			break
@@ -345,6 +350,39 @@ func runC12(c ocCase) (fail string, stats map[string]bool) {
 		if didCloseIn {
 			stats["last-word-and-close-from-a-listener"] = true
 			stats["last-word-and-close-from-a-"+c.CloseIn+"-listener"] = true
+		} else if c.CloseHeld && g != nil {
+			gpc := GatePoint{"socket.Close.buffered", g.Count("socket.Close.buffered")}
+			g.mu.Lock()
+			g.plan[gpc] = true
+			g.mu.Unlock()
+			go tgt.sr.Sock.Close(false)
+			Settle()
+			heldInClose := false
+			for _, p := range g.Parked() {
+				if p == gpc {
+					heldInClose = true
+				}
+			}
+			if heldInClose {
+				// the packets are handed over by somebody else meanwhile: the held writer finishes its batch and the
+				// transport takes the next one; a polling client's next poll arrives
+				for _, h := range helds {
+					g.Release(h.gp)
+				}
+				Settle()
+				if tgt.onPolling() && tgt.pc.Poll == nil && tgt.sp.Poll != "never" {
+					tgt.pc.StartPoll()
+					Settle()
+				}
+				if tgt.sr.Sock.ReadyState() == "closing" {
+					stats["buffer-handed-over-while-the-closer-is-inside-Close"] = true
+				}
+			}
+			g.mu.Lock()
+			delete(g.plan, gpc)
+			g.mu.Unlock()
+			g.Release(gpc)
+			Settle()
 		} else {
 			tgt.sr.Sock.Close(false)
 		}
@@ -644,6 +682,7 @@ func TestC12OrderlyClose(t *testing.T) {
 		})
 	}
 	req := []string{"upgrade-completed-while-closing", "session-still-closing-at-shutdown", "graceful-close", "discarding-close", "server-close", "http-server-close", "shutdown>=2-sessions", "client-never-polls-again", "close-during-upgrade", "upgraded-session", "carrier.polling", "carrier.websocket", "carrier.webtransport", "close-while-writer-parked", "last-word-and-close-from-a-flush-listener", "last-word-and-close-from-a-drain-listener", "last-word-and-close-from-a-srv.flush-listener"}
+	req = append(req, "buffer-handed-over-while-the-closer-is-inside-Close")
 	col.RequireClasses(t, req...)
 }
 
@@ -685,5 +724,27 @@ func TestC12CloseFromFlushListenerFinding(t *testing.T) {
 			col.Case(c.String(), true, map[string]any{"case": c.String(), "result": clipStr(fail, 300)}, "last-word-and-close-from-a-"+in+"-listener")
 			demoFinding(t, col, "C12", sigCloseFromFlushListener, fail != "", fmt.Sprintf("%s, Send(bye)+Close(false) inside a %s listener: %s", car, in, clipStr(fail, 300)))
 		}
+	}
+}
+
+const sigCloseRacingFlush = "graceful-close-racing-with-a-flush-on-another-goroutine-never-completes"
+
+// TestC12CloseRacingFlushFinding: deterministic demonstration: the closing goroutine is held inside Close after it
+// has found packets in the write buffer; the next poll (polling) or the writer finishing the batch before
+// (websocket / webtransport) hands them over; the closing goroutine goes on.
+func TestC12CloseRacingFlushFinding(t *testing.T) {
+	col := NewCollector("TestC12CloseRacingFlushFinding", "deterministic: (a) polling session, one Send with no poll pending, Close(false) held at the yield point socket.Close.buffered, the client's next poll arrives, Close goes on; (b) websocket / webtransport session, two Sends behind a held writer, Close(false) held likewise, the writer is released; the client reads on; oracle of TestC12OrderlyClose: every message arrives, then the session closes with 'forced close'. every case is non-trivial").Use(t)
+	cases := []ocCase{
+		{Sess: []ocSessSpec{{Car: "polling", Rev: 4, K: 1, Sizes: []int{10}, Poll: "later", Later: time.Millisecond}}, Close: "close", CloseHeld: true},
+		{Sess: []ocSessSpec{{Car: "polling", Rev: 3, K: 2, Sizes: []int{10, 0}, Poll: "later", Later: time.Millisecond}}, Close: "close", CloseHeld: true},
+		{Sess: []ocSessSpec{{Car: "websocket", Rev: 4, K: 2, Sizes: []int{10, 10}, Poll: "pending", GateSend: true}}, Close: "close", CloseHeld: true},
+		{Sess: []ocSessSpec{{Car: "webtransport", Rev: 4, K: 2, Sizes: []int{0, 0}, Poll: "pending", GateSend: true}}, Close: "close", CloseHeld: true},
+	}
+	for _, c := range cases {
+		var fail string
+		res := bubble(t, func() { fail, _ = runC12(c) })
+		res.rethrow()
+		col.Case(c.String(), true, map[string]any{"case": c.String(), "result": clipStr(fail, 300)}, "buffer-handed-over-while-the-closer-is-inside-Close")
+		demoFinding(t, col, "C12", sigCloseRacingFlush, fail != "", fmt.Sprintf("%v: %s", c, clipStr(fail, 300)))
 	}
 }
